@@ -20,11 +20,19 @@
 //! no input makes a parser (or `load_file`'s diagnostic rendering, or `simplify` of a parsed
 //! problem) panic, abort, overflow the stack or hang.  Inputs that could make the parser allocate
 //! by a number in the file (a digit run of 8+ characters) or recurse deeply are parsed in a child
-//! process with an address-space limit, so that an abort is observed instead of killing the run.
+//! process (`c18_parsers --one-input <fmt> <opts> <path>`) with an address-space limit, so that an
+//! abort is observed instead of killing the run.
+//!
+//! Known findings.  Five classes of parser defects are listed findings (see `known_class`); each
+//! has a dedicated deterministic case `case kf-parser-<name>` in which the failure is reported
+//! (`sig = parser-panic | parser-abort`).  Outside these cases an input of the randomly mutated
+//! part that fails *and* falls into one of the narrowly defined classes is counted in the
+//! statistics ("known class … tolerated") instead of reported; every other failure is reported.
+//! Inside a kf case a failure of a different class gets the signature `parser-failure-unexpected`.
 use oxidd_parser::{Circuit, GateKind, Literal, ParseOptions, ParseOptionsBuilder, Problem, ProblemDetails};
 use oxv::*;
 use std::collections::BTreeMap;
-use std::io::{Read, Write};
+use std::io::Write;
 use std::panic::{AssertUnwindSafe, catch_unwind};
 
 // ------------------------------------------------------------------ calling the parsers
@@ -140,17 +148,15 @@ unsafe extern "C" {
 }
 const RLIMIT_AS: i32 = 9; // Linux
 
-/// `c18_parsers parse1 <fmt> <opts>`: bytes on stdin; exit 0 = problem, 1 = diagnostic, 101 = panic
+/// `c18_parsers --one-input <fmt> <opts> <path>`: exit 0 = problem, 1 = diagnostic, 101 = panic
 fn child_main(args: &[String]) -> ! {
     let lim = RLimit { cur: 3 << 30, max: 3 << 30 };
     unsafe {
         setrlimit(RLIMIT_AS, &lim);
     }
-    std::panic::set_hook(Box::new(|_| {}));
     let fmt = fmt_of(&args[2]).unwrap();
     let opts: u32 = args[3].parse().unwrap();
-    let mut input = Vec::new();
-    std::io::stdin().read_to_end(&mut input).unwrap();
+    let input = std::fs::read(&args[4]).unwrap();
     let tmp = std::env::temp_dir();
     let (v, _, _) = run_all_in_process(fmt, opts, &input, &tmp, false);
     std::process::exit(match v {
@@ -160,33 +166,43 @@ fn child_main(args: &[String]) -> ! {
     })
 }
 
-fn run_in_child(fmt: Fmt, opts: u32, input: &[u8]) -> (Verdict, String) {
+fn run_in_child(fmt: Fmt, opts: u32, input: &[u8], tmp: &std::path::Path) -> (Verdict, String) {
     use std::process::{Command, Stdio};
     let exe = std::env::current_exe().unwrap();
+    let path = tmp.join("one-input.bin");
+    if let Err(e) = std::fs::write(&path, input) {
+        return (Verdict::Hang, format!("cannot write the input file for the child: {}", e));
+    }
     let mut ch = match Command::new(exe)
-        .args(["parse1", fmt_name(fmt), &opts.to_string()])
-        .stdin(Stdio::piped())
+        .args(["--one-input", fmt_name(fmt), &opts.to_string()])
+        .arg(&path)
+        .stdin(Stdio::null())
         .stdout(Stdio::null())
-        .stderr(Stdio::null())
+        .stderr(Stdio::piped())
         .spawn()
     {
         Ok(c) => c,
-        Err(e) => return (Verdict::Diag, format!("cannot spawn child: {}", e)),
+        Err(e) => return (Verdict::Hang, format!("cannot spawn child: {}", e)),
     };
-    {
-        let mut si = ch.stdin.take().unwrap();
-        let _ = si.write_all(input);
-    }
     let t0 = std::time::Instant::now();
     loop {
         match ch.try_wait() {
             Ok(Some(st)) => {
+                // what the child wrote to stderr: the panic message / the allocation failure /
+                // the stack overflow notice of the Rust runtime
+                let mut err = String::new();
+                if let Some(mut e) = ch.stderr.take() {
+                    use std::io::Read;
+                    let mut buf = Vec::new();
+                    let _ = e.read_to_end(&mut buf);
+                    err = String::from_utf8_lossy(&buf).chars().take(300).collect::<String>().replace('\n', " ");
+                }
                 return match st.code() {
                     Some(0) => (Verdict::Ok, String::new()),
                     Some(1) => (Verdict::Diag, String::new()),
-                    Some(101) => (Verdict::Panic, "panic in the child process".into()),
-                    Some(c) => (Verdict::Abort, format!("child exited with status {}", c)),
-                    None => (Verdict::Abort, format!("child killed by a signal ({})", st)),
+                    Some(101) => (Verdict::Panic, format!("panic in the child process: {}", err)),
+                    Some(c) => (Verdict::Abort, format!("child exited with status {}: {}", c, err)),
+                    None => (Verdict::Abort, format!("child killed by a signal ({}): {}", st, err)),
                 };
             }
             Ok(None) => {
@@ -197,15 +213,15 @@ fn run_in_child(fmt: Fmt, opts: u32, input: &[u8]) -> (Verdict, String) {
                 }
                 std::thread::sleep(std::time::Duration::from_millis(2));
             }
-            Err(e) => return (Verdict::Diag, format!("wait failed: {}", e)),
+            Err(e) => return (Verdict::Hang, format!("wait failed: {}", e)),
         }
     }
 }
 
-/// could this input make the parser allocate by a number in the file or recurse deeply?
-fn risky(input: &[u8]) -> bool {
+/// does the input contain a number of 8 or more digits (the parsers reserve memory by the
+/// numbers of the header / of order lines)?
+fn has_long_number(input: &[u8]) -> bool {
     let mut run = 0;
-    let mut nest = 0usize;
     for &b in input {
         if b.is_ascii_digit() {
             run += 1;
@@ -215,11 +231,58 @@ fn risky(input: &[u8]) -> bool {
         } else {
             run = 0;
         }
-        if b == b'(' || b == b'[' {
-            nest += 1;
-        }
     }
-    nest > 2000
+    false
+}
+/// more than 2000 opening parentheses / brackets (the SAT and tree parsers are recursive)?
+fn deeply_nested(input: &[u8]) -> bool {
+    input.iter().filter(|&&b| b == b'(' || b == b'[').count() > 2000
+}
+/// could this input make the parser allocate by a number in the file or recurse deeply?
+fn risky(input: &[u8]) -> bool {
+    has_long_number(input) || deeply_nested(input)
+}
+
+/// The classes of failing inputs that are listed known findings (Circuit-3 material).  A failure
+/// belongs to a class only if the observed failure *and* the shape of the input match.
+fn known_class(opts: u32, input: &[u8], v: Verdict, in_child: bool, msg: &str) -> Option<&'static str> {
+    let lines = || input.split(|&b| b == b'\n');
+    match v {
+        // allocation sized by a number of the file: `capacity overflow` panic or allocation
+        // failure abort, only observable in the child process (digit run of 8+)
+        Verdict::Panic if in_child && has_long_number(input) && msg.contains("capacity overflow") => Some("alloc"),
+        Verdict::Abort if in_child && has_long_number(input) && msg.contains("memory allocation of") => Some("alloc"),
+        // recursion depth = nesting depth of the input
+        Verdict::Abort if in_child && deeply_nested(input) && msg.contains("overflowed its stack") => Some("deep-nesting"),
+        // `max_clause.1 != num_clauses.1 - 1` with a clause tree and `p cnf <n> 0`
+        Verdict::Panic
+            if !in_child
+                && msg.starts_with("parser:")
+                && msg.contains("subtract with overflow")
+                && opts & 2 != 0
+                && lines().any(|l| l.starts_with(b"c") && l.windows(2).any(|w| w == b"co"))
+                && lines().any(|l| {
+                    let w: Vec<&[u8]> = l.split(|b| b.is_ascii_whitespace()).filter(|x| !x.is_empty()).collect();
+                    w.len() == 4 && w[0] == b"p" && w[1] == b"cnf" && !w[3].is_empty() && w[3].iter().all(|&b| b == b'0')
+                }) =>
+        {
+            Some("co-zero-clauses")
+        }
+        // `c vo []`: an order tree without leaves passes `tree()` and trips `VarSet::check_valid`
+        Verdict::Panic
+            if !in_child
+                && msg.starts_with("parser:")
+                && msg.contains("order_tree.is_none()")
+                && opts & 1 != 0
+                && lines().any(|l| l.starts_with(b"c") && l.windows(2).any(|w| w == b"vo") && !l.iter().any(|b| b.is_ascii_digit())) =>
+        {
+            Some("empty-order-tree")
+        }
+        // the diagnostic renderer computes the offset of a placeholder span (`&[]`) that does not
+        // point into the input; the parser itself returned a diagnostic
+        Verdict::Panic if !in_child && msg.starts_with("load_file:") && msg.contains("subtract with overflow") => Some("diag-span"),
+        _ => None,
+    }
 }
 
 // ------------------------------------------------------------------ evaluating parsed problems
@@ -302,6 +365,10 @@ fn hex(b: &[u8]) -> String {
     }
     if s.is_empty() { "-".into() } else { s }
 }
+/// hex of the input, abbreviated for very long inputs (the operation line regenerates them)
+fn hex_short(b: &[u8]) -> String {
+    if b.len() <= 600 { hex(b) } else { format!("{}…({} bytes)", hex(&b[..300]), b.len()) }
+}
 fn unhex(s: &str) -> Option<Vec<u8>> {
     if s == "-" {
         return Some(Vec::new());
@@ -316,9 +383,10 @@ impl Parsers {
     /// parse one input under every guard; report panics / aborts / hangs
     fn check(&self, what: &str, input: &[u8], ctx: &mut Ctx) -> Verdict {
         ctx.count("inputs");
-        let (v, msg) = if risky(input) {
+        let in_child = risky(input);
+        let (v, msg) = if in_child {
             ctx.count("inputs parsed in a child process");
-            run_in_child(self.fmt, self.opts, input)
+            run_in_child(self.fmt, self.opts, input, &self.tmp)
         } else {
             let (v, _, m) = run_all_in_process(self.fmt, self.opts, input, &self.tmp, true);
             (v, m)
@@ -326,9 +394,25 @@ impl Parsers {
         match v {
             Verdict::Ok => ctx.count("verdict:ok"),
             Verdict::Diag => ctx.count("verdict:diagnostic"),
-            Verdict::Panic => ctx.fail("parser-panic", &format!("{} {} opts={} input={}: {}", fmt_name(self.fmt), what, self.opts, hex(input), msg)),
-            Verdict::Abort => ctx.fail("parser-abort", &format!("{} {} opts={} input={}: {}", fmt_name(self.fmt), what, self.opts, hex(input), msg)),
-            Verdict::Hang => ctx.fail("parser-hang", &format!("{} {} opts={} input={}: {}", fmt_name(self.fmt), what, self.opts, hex(input), msg)),
+            Verdict::Panic | Verdict::Abort | Verdict::Hang => {
+                let class = known_class(self.opts, input, v, in_child, &msg);
+                let kf_case = ctx.case.strip_prefix("case kf-parser-").map(|s| s.to_string());
+                let descr = format!("{} {} opts={} input={}: {}", fmt_name(self.fmt), what, self.opts, hex_short(input), msg);
+                let sig = match v {
+                    Verdict::Panic => "parser-panic",
+                    Verdict::Abort => "parser-abort",
+                    _ => "parser-hang",
+                };
+                match (class, kf_case) {
+                    // a listed finding, reproduced in its dedicated case
+                    (Some(c), Some(k)) if k.starts_with(c) => ctx.fail(sig, &format!("[known class {}] {}", c, descr)),
+                    // a dedicated case must only show its own class
+                    (_, Some(k)) => ctx.fail("parser-failure-unexpected", &format!("[in case kf-parser-{}: class {:?}] {} {}", k, class, sig, descr)),
+                    // the random part ran into a listed class: counted, not reported
+                    (Some(c), None) => ctx.count(&format!("known class {} hit by a generated input (tolerated)", c)),
+                    (None, None) => ctx.fail(sig, &descr),
+                }
+            }
         }
         v
     }
@@ -566,14 +650,8 @@ impl Scenario for Parsers {
                     }
                     _ => return "bad-op".into(),
                 };
-                ctx.count("inputs");
-                let (v, msg) = run_in_child(fmt, opts, &input);
-                match v {
-                    Verdict::Ok | Verdict::Diag => {}
-                    Verdict::Panic => ctx.fail("parser-panic", &format!("{} {} n={}: {}", fmt_name(fmt), kind, n, msg)),
-                    Verdict::Abort => ctx.fail("parser-abort", &format!("{} {} n={}: {}", fmt_name(fmt), kind, n, msg)),
-                    Verdict::Hang => ctx.fail("parser-hang", &format!("{} {} n={}: {}", fmt_name(fmt), kind, n, msg)),
-                }
+                self.base = input;
+                let v = self.check(&format!("{} n={}", kind, n), &self.base.clone(), ctx);
                 format!("{:?}", v)
             }
             _ => "bad-op".into(),
@@ -1060,44 +1138,91 @@ fn generate(cfg: &GenCfg, rng: &mut Rng, w: &mut dyn Write) {
         writeln!(w, "truncall").unwrap();
         writeln!(w, "muts {} {}", rng.next() % 1_000_000, muts).unwrap();
     }
-    // ---- stress inputs: numbers that make a parser reserve memory, deep nesting (child process)
-    let big = ["1152921504606846975", "1152921504606846976", "18446744073709551615", "99999999999", "4000000000"];
-    for (fmt, tmpl) in [
-        ("dimacs", "p cnf N 1\n1 0\n"),
-        ("dimacs", "p cnf 1 N\n1 0\n"),
-        ("dimacs", "p sat N\n(1)\n"),
-        ("nnf", "nnf N 0 1\nL 1\n"),
-        ("nnf", "nnf 1 N 1\nL 1\n"),
-        ("nnf", "nnf 1 0 N\nL 1\n"),
-        ("nnf", "nnf 2 1 1\nL 1\nA N 0\n"),
-        ("aiger", "aag N 0 0 0 0\n"),
-        ("aiger", "aag N N 0 0 0\n"),
-        ("aiger", "aig N 0 N 0 0\n"),
-        ("aiger", "aag N 0 0 N 0\n"),
-        ("aiger", "aig N 0 0 0 N\n"),
-        ("aiger", "aag 0 0 0 0 0 N\n"),
-        ("aiger", "aag 0 0 0 0 0 0 0 N\n"),
+    // ---- numbers and nesting the parsers must cope with (any failure here is a violation)
+    let big = ["1152921504606846975", "1152921504606846976", "18446744073709551615", "99999999999", "99999999"];
+    writeln!(w, "case stress numbers").unwrap();
+    for (fmt, opts, tmpl) in [
+        ("dimacs", 0, "p cnf N 1\n1 0\n"),
+        ("dimacs", 0, "p cnf 1 N\n1 0\n"),
+        ("nnf", 0, "nnf 1 0 N\nL 1\n"),
+        ("nnf", 0, "nnf 2 1 1\nL 1\nA N 0\n"),
+        ("nnf", 0, "nnf 1 0 1\nL N\n"),
+        ("aiger", 0, "aag 1 1 0 1 0\n2\nN\n"),
+        ("aiger", 0, "aig 1 0 0 0 1\n\x02N"),
     ] {
         for n in big {
-            case += 1;
-            writeln!(w, "case stress huge-number {} {}", fmt, case).unwrap();
-            writeln!(w, "raw {} 0 {}", fmt, hex(tmpl.replace('N', n).as_bytes())).unwrap();
+            writeln!(w, "raw {} {} {}", fmt, opts, hex(tmpl.replace('N', n).as_bytes())).unwrap();
         }
     }
-    for (opts, tmpl) in [(1, "c vo [N]\np cnf 1 1\n1 0\n"), (1, "c N\np cnf 1 1\n1 0\n"), (2, "c co [N]\np cnf 1 1\n1 0\n"), (2, "c co [0]\np cnf 1 0\n")] {
-        for n in big {
-            case += 1;
-            writeln!(w, "case stress huge-number dimacs-order {}", case).unwrap();
-            writeln!(w, "raw dimacs {} {}", opts, hex(tmpl.replace('N', n).as_bytes())).unwrap();
+    // numbers beyond usize::MAX / 16 are rejected with a diagnostic everywhere
+    for (fmt, opts, tmpl) in [
+        ("dimacs", 0, "p sat N\n(1)\n"),
+        ("nnf", 0, "nnf N 0 1\nL 1\n"),
+        ("nnf", 0, "nnf 1 N 1\nL 1\n"),
+        ("aiger", 0, "aag N 0 0 0 0\n"),
+        ("aiger", 0, "aig N 0 N 0 0\n"),
+        ("aiger", 0, "aag 0 0 0 0 0 0 0 N\n"),
+        ("dimacs", 1, "c N\np cnf 1 1\n1 0\n"),
+        ("dimacs", 1, "c vo [N]\np cnf 1 1\n1 0\n"),
+        ("dimacs", 2, "c co [N]\np cnf 1 1\n1 0\n"),
+    ] {
+        for n in ["1152921504606846976", "18446744073709551615", "18446744073709551616"] {
+            writeln!(w, "raw {} {} {}", fmt, opts, hex(tmpl.replace('N', n).as_bytes())).unwrap();
         }
     }
-    for (fmt, opts, kind) in [("dimacs", 0, "sat-parens"), ("dimacs", 0, "sat-neg"), ("dimacs", 1, "tree"), ("dimacs", 0, "cnf-long")] {
-        for n in if cfg.thorough { vec![1000, 100_000, 2_000_000] } else { vec![1000, 400_000] } {
-            case += 1;
-            writeln!(w, "case stress deep-nesting {} {}", kind, case).unwrap();
-            writeln!(w, "big {} {} {} {}", fmt, opts, kind, n).unwrap();
+    writeln!(w, "case stress nesting").unwrap();
+    for (fmt, opts, kind, n) in [("dimacs", 0, "sat-parens", 1000), ("dimacs", 0, "sat-neg", 1000), ("dimacs", 1, "tree", 1000),
+        ("dimacs", 0, "cnf-long", if cfg.thorough { 2_000_000 } else { 200_000 })] {
+        writeln!(w, "big {} {} {} {}", fmt, opts, kind, n).unwrap();
+    }
+
+    // ---- listed known findings: one dedicated, deterministic case per class (both tiers)
+    // (1) memory reserved by a number of the input: allocation failure abort / capacity overflow
+    writeln!(w, "case kf-parser-alloc").unwrap();
+    for (fmt, opts, tmpl) in [
+        ("nnf", 0, "nnf N 0 1\nL 1\n"),
+        ("nnf", 0, "nnf 1 N 1\nL 1\n"),
+        ("dimacs", 0, "p sat N\n(1)\n"),
+        ("aiger", 0, "aag N 0 0 0 0\n"),
+        ("aiger", 0, "aig N N 0 0 0\n"),
+        ("aiger", 0, "aig N 0 N 0 0\n"),
+        ("aiger", 0, "aag N 0 0 N 0\n"),
+        ("aiger", 0, "aig N 0 0 0 N\n"),
+        ("aiger", 0, "aag 0 0 0 0 0 N\n"),
+        ("aiger", 0, "aag 0 0 0 0 0 0 N\n"),
+        ("aiger", 0, "aag 0 0 0 0 0 0 0 N\n"),
+        ("aiger", 0, "aag 0 0 0 0 0 0 0 0 N\n"),
+        ("aiger", 0, "aag 0 0 0 0 0 0 0 1\nN\n"),
+        ("dimacs", 1, "c N\np cnf 1 1\n1 0\n"),
+        ("dimacs", 1, "c vo [N]\np cnf 1 1\n1 0\n"),
+        ("dimacs", 2, "c co [N]\np cnf 1 1\n1 0\n"),
+        ("nnf", 1, "c N x\nnnf 1 0 1\nL 1\n"),
+        ("nnf", 1, "c vo [N]\nnnf 1 0 1\nL 1\n"),
+    ] {
+        for n in ["1152921504606846975", "99999999999"] {
+            writeln!(w, "raw {} {} {}", fmt, opts, hex(tmpl.replace('N', n).as_bytes())).unwrap();
         }
     }
+    // (2) clause tree given, zero clauses declared: `num_clauses - 1` underflows (debug builds)
+    writeln!(w, "case kf-parser-co-zero-clauses").unwrap();
+    writeln!(w, "raw dimacs 2 {}", hex(b"c co [0]\np cnf 1 0\n")).unwrap();
+    writeln!(w, "raw dimacs 3 {}", hex(b"c 1 a\nc co [[0, 1]]\np cnf 1 0\n")).unwrap();
+    // (3) order tree without leaves is accepted by `tree()` and violates `VarSet::check_valid`
+    writeln!(w, "case kf-parser-empty-order-tree").unwrap();
+    writeln!(w, "raw dimacs 1 {}", hex(b"c vo []\np cnf 1 1\n1 0\n")).unwrap();
+    writeln!(w, "raw nnf 1 {}", hex(b"c vo [ [] ]\nnnf 1 0 1\nL 1\n")).unwrap();
+    // (4) diagnostics that mention a placeholder span: offset computation underflows in load_file
+    writeln!(w, "case kf-parser-diag-span").unwrap();
+    for t in [&b"aag 0 0 0 0 0\nc0 x\n"[..], b"aag 0 0 0 0 0\nb0 x\n", b"aag 0 0 0 0 0 0\nj0 x\n", b"aig 0 0 0 0 0\nf0 x\n"] {
+        writeln!(w, "raw aiger 0 {}", hex(t)).unwrap();
+    }
+    writeln!(w, "raw dimacs 1 {}", hex(b"c vo []\np cnf 3 4\n1 0\n")).unwrap();
+    // (5) recursion depth = nesting depth of the input: stack overflow
+    writeln!(w, "case kf-parser-deep-nesting").unwrap();
+    for (opts, kind) in [(0, "sat-parens"), (0, "sat-neg"), (1, "tree")] {
+        writeln!(w, "big dimacs {} {} 400000", opts, kind).unwrap();
+    }
+    let _ = case;
 }
 
 fn make(_f: &BTreeMap<String, String>) -> Box<dyn Scenario> {
@@ -1108,7 +1233,7 @@ fn make(_f: &BTreeMap<String, String>) -> Box<dyn Scenario> {
 
 fn main() {
     let args: Vec<String> = std::env::args().collect();
-    if args.get(1).map(|s| s.as_str()) == Some("parse1") {
+    if args.get(1).map(|s| s.as_str()) == Some("--one-input") {
         child_main(&args);
     }
     harness_main(generate, make)
